@@ -153,6 +153,8 @@ OnStart(m, e) ==
             ELSE {V(m, e, IF m.coe THEN "C08" ELSE "C07", "function downstream of a failure was invoked")})
       \cup (IF ~DepsOK(m, i) \/ e.toks = ExpectedToks(m, i) THEN {}
             ELSE {V(m, e, dataprop, "invoked with other values than its providers returned")})
+      \cup (IF \A k \in DOMAIN e.toks : e.toks[k] # -15 THEN {}
+            ELSE {V(m, e, "C15", "an argument read a variable after a later argument's side effect: evaluated out of source order")})
       \cup (IF NRun(m) < m.conc THEN {} ELSE {V(m, e, "C03", "more user functions running than the concurrency limit")})
       \* the goroutines of a directive are its workers: a function of the limit only, whatever the number of
       \* tasks / elements (no user function of the rendered programs kills its goroutine)
